@@ -98,12 +98,11 @@ func iterateShared(fn subscription.IterateFn, options subscription.IterationOpti
 	}
 	// 查询指定clientID下的所有topic
 	if options.ClientID != "" {
-		for _, v := range index[options.ClientID] {
-			for _, c := range v.shared {
-				if sub, ok := c[options.ClientID]; ok {
-					if !fn(options.ClientID, sub) {
-						return false
-					}
+		for name, v := range index[options.ClientID] {
+			shareName, _ := subscription.SplitTopic(name)
+			if sub, ok := v.shared[shareName][options.ClientID]; ok {
+				if !fn(options.ClientID, sub) {
+					return false
 				}
 			}
 		}
@@ -275,6 +274,9 @@ func (db *TrieDB) SubscribeLocked(clientID string, subscriptions ...*gmqtt.Subsc
 		if sub.ShareName != "" {
 			node = db.sharedTrie.subscribe(clientID, sub)
 			index = db.sharedIndex
+			// the shared index is keyed by the full name ($share/<shareName>/<topicFilter>):
+			// a client may join several groups on the same filter.
+			topicName = sub.GetFullTopicName()
 		} else if isSystemTopic(topicName) {
 			node = db.systemTrie.subscribe(clientID, sub)
 			index = db.systemIndex
@@ -314,6 +316,7 @@ func (db *TrieDB) UnsubscribeLocked(clientID string, topics ...string) {
 	var topicTrie *topicTrie
 	for _, topic := range topics {
 		var shareName string
+		indexKey := topic
 		shareName, topic := subscription.SplitTopic(topic)
 		if shareName != "" {
 			topicTrie = db.sharedTrie
@@ -325,12 +328,15 @@ func (db *TrieDB) UnsubscribeLocked(clientID string, topics ...string) {
 			index = db.userIndex
 			topicTrie = db.userTrie
 		}
+		if shareName == "" {
+			indexKey = topic
+		}
 		if _, ok := index[clientID]; ok {
-			if _, ok := index[clientID][topic]; ok {
+			if _, ok := index[clientID][indexKey]; ok {
 				db.stats.SubscriptionsCurrent--
 				db.clientStats[clientID].SubscriptionsCurrent--
 			}
-			delete(index[clientID], topic)
+			delete(index[clientID], indexKey)
 		}
 		topicTrie.unsubscribe(clientID, topic, shareName)
 	}
